@@ -24,7 +24,7 @@ def labelTok : Label → String
   | .work => "w"
   | .upResp k code d t => s!"R{k}:{code}:{bs d}{bs t}"
   | .upReset k r => s!"X{k}:{r.name}"
-  | .upRespS k code d t => s!"H{k}:{code}:{bs d}{bs t}"
+  | .upRespS k code d t => s!"B{k}:{code}:{bs d}{bs t}"
   | .upEnd k => s!"E{k}"
   | .poolFail .overflow => "PFo"
   | .poolFail .connfail => "PFc"
